@@ -68,10 +68,22 @@ Theorem C11_total :
 Proof. exact parse_total. Qed.
 
 (** ** Write and read again *)
+(** every string of a library read from valid UTF-8 is valid UTF-8, and every `char` a scalar value ([val_lib],
+    Lef/LefSafety_proofs.v: names, string literals, extension data, bus-bit and divider characters); any cfg *)
+Theorem C11_reader_strings_valid :
+  forall cf src l, utf8_valid src -> parse cf src = Ok l -> val_lib l.
+Proof. intros cf src l V. apply parse_valid. apply valid_U8. exact V. Qed.
+
+(** the writer returns text or an error; the text is valid UTF-8 (so the model's [parse] of it stands for the
+    implementation's) and reading it neither panics nor runs out of fuel *)
 Theorem C11_rewrite_safe :
   forall cf src l, c_charpos cf = false -> utf8_valid src -> parse cf src = Ok l ->
-    write_lib cf l <> Panic /\ (forall t, write_lib cf l = Ok t -> parse cf t <> Panic /\ parse cf t <> OutOfFuel).
-Proof. intros cf src l Hcf _ _. exact (rewrite_safe_gen cf l Hcf). Qed.
+    write_lib cf l <> Panic /\
+    (forall t, write_lib cf l = Ok t -> utf8_valid t /\ parse cf t <> Panic /\ parse cf t <> OutOfFuel).
+Proof.
+  intros cf src l Hcf V P. destruct (rewrite_safe_gen cf l Hcf) as [A B]. split; [exact A|].
+  intros t W. split; [exact (rewrite_valid cf src l t V P W) | exact (B t W)].
+Qed.
 
 (** ** Non-vacuity *)
 (** a text with multi-byte characters in a comment, in names (macro, pin, layer, property) and in a string:
@@ -163,7 +175,8 @@ Check C11_terminates_linear : forall cf src, c_charpos cf = false -> utf8_valid 
 Check C11_lex_no_panic : forall src, utf8_valid src -> snd (lex false src) <> LPanic.
 Check C11_lex_terminates : forall cm src, snd (lex cm src) <> LFuel.
 Check C11_rewrite_safe : forall cf src l, c_charpos cf = false -> utf8_valid src -> parse cf src = Ok l ->
-    write_lib cf l <> Panic /\ (forall t, write_lib cf l = Ok t -> parse cf t <> Panic /\ parse cf t <> OutOfFuel).
+    write_lib cf l <> Panic /\
+    (forall t, write_lib cf l = Ok t -> utf8_valid t /\ parse cf t <> Panic /\ parse cf t <> OutOfFuel).
 
 Print Assumptions C11_no_panic_orig_refuted.
 Print Assumptions C11_lex_orig_refuted.
@@ -174,4 +187,5 @@ Print Assumptions C11_no_panic.
 Print Assumptions C11_terminates_linear.
 Print Assumptions C11_fuel_linear.
 Print Assumptions C11_total.
+Print Assumptions C11_reader_strings_valid.
 Print Assumptions C11_rewrite_safe.
